@@ -232,15 +232,43 @@ func laws(sel int, in, got []int64, law func(lsel int, lin []int64, sig string))
 	nodes, jobs, tasks, ops := decCase(in)
 	w := sched.NewWorld(nodes, jobs, tasks)
 	dumps := [][]int64{w.EncLawDump()}
+	{
+		// base case: the REAL initial session satisfies the executable invariant (law 101 with a
+		// no-op step), and the model's own initial session of this case satisfies the hypotheses of
+		// the history theorem (law 112)
+		lin := []int64{0, 0, 0}
+		lin = append(lin, dumps[0]...)
+		lin = append(lin, dumps[0]...)
+		lin = append(lin, 0, 0)
+		law(101, lin, "")
+		law(112, in, "")
+	}
 	// for each statement: index of the last step after which it was empty
 	emptySince := map[int64]int{1: 0, 2: 0, 3: 0}
 	prevStatus := map[int64]int64{} // status a victim had when its eviction was recorded (prevStatus of the operation)
 	preOK := map[int64]bool{}       // the recorded placement met the call sites' precondition (Pending, on no node)
 	anyDrop := false
+	specAtPlacement := map[int64]int64{} // Pod.Spec.NodeName a task had before the Allocate that is still recorded for it
+	lastAllocNode := map[int64]string{}  // node of that Allocate
+	podSigned := 0
 	for i, o := range ops {
 		before := dumps[len(dumps)-1]
 		var cops []int64 // law 103 input: the operations a Commit is about to decide
 		allRefused := false
+		specBefore := map[int64]int64{} // Pod.Spec.NodeName of the tasks this operation may write it for / must restore it for
+		switch o.Code {
+		case 1:
+			specBefore[o.A[1]] = sched.NodeRef(w.Tasks[o.A[1]].Pod.Spec.NodeName)
+		case 11:
+			specBefore[o.A[0]] = sched.NodeRef(w.Tasks[o.A[0]].Pod.Spec.NodeName)
+		case 6:
+			for _, vo := range w.Stmts[o.A[0]].VerifOps() {
+				if int64(vo.Kind) == 2 {
+					id := sched.ParseID(string(vo.Task.UID))
+					specBefore[id] = specAtPlacement[id]
+				}
+			}
+		}
 		var recorded []int64 // tasks recorded in a statement that is open when a Session.Allocate runs
 		if o.Code == 11 {
 			for sid := int64(1); sid <= 3; sid++ {
@@ -319,17 +347,103 @@ func laws(sel int, in, got []int64, law func(lsel int, lin []int64, sig string))
 			if !(st == sched.SPending && nd == 0 && !onAnyNode(before, ptid)) && st != 0 {
 				// outside the call sites' precondition (task not Pending or already on a node) the
 				// property text still says "a failed operation leaves no trace".  KNOWN FINDING: the
-				// rollback resets the task to Pending / removes the copy the node already held
+				// rollback resets the task to Pending / "" (and Statement's removes the copy the node
+				// already held).  The sig is attached only when THAT is what happened to the task; that
+				// nothing else moved (other tasks, other copies, job task sets, shares) is law 109,
+				// unsigned, and the ledgers are pinned by ledger_okb of law 101.
 				d := append(append([]int64{}, before...), after...)
-				law(107, d, "C07-failed-placement-outside-precondition-not-restored")
+				sig := ""
+				if t := w.Tasks[ptid]; t.NodeName == "" {
+					// rolled back to Pending / "" (the status reset is skipped when the session no
+					// longer knows the job)
+					if _, known := w.Ssn.Jobs[t.Job]; t.Status == api.Pending || !known {
+						sig = "C07-failed-placement-outside-precondition-not-restored"
+					}
+				}
+				law(107, d, sig)
+				law(109, append([]int64{ptid}, d...), "")
 			}
 		}
 		if isGang(ops) && i == len(ops)-1 && o.Code == 11 && ob.res == 1 {
 			// a failed Session.Allocate leaves no trace of the task it was called with.  KNOWN
-			// FINDING: when the refused dispatch is that of another member, the argument stays Allocated
+			// FINDING: when the refused dispatch is that of ANOTHER member, that member is undone and
+			// the argument stays Allocated on its node.  The sig is attached only in that situation
+			// (everything else about the step is law 105, unsigned).
 			lin := []int64{o.A[0], o.A[1]}
 			lin = append(lin, after...)
-			law(108, lin, "C07-session-allocate-error-keeps-argument-allocated")
+			sig := ""
+			arg := w.Tasks[o.A[0]]
+			if (arg.Status == api.Allocated || arg.Status == api.Binding) && sched.NodeRef(arg.NodeName) == o.A[1] {
+				// (Binding: Go's map order reached the argument before the refused member)
+				for id, on := range w.Cache.RefuseBind {
+					stB, _ := taskAt(before, id)
+					if on && id != o.A[0] && stB == sched.SAllocated && w.Tasks[id].Status == api.Pending {
+						sig = "C07-session-allocate-error-keeps-argument-allocated"
+					}
+				}
+			}
+			law(108, lin, sig)
+		}
+		if o.Code == 13 {
+			// evictor half of "nothing of an undecided transaction reaches the binder or evictor":
+			// no task Session.Evict hands to the evictor is recorded in an open statement (the
+			// generator never evicts such a task; C07_undecided_reaches_evictor_refuted is the model's witness)
+			rec := []int64{}
+			for sid := int64(1); sid <= 3; sid++ {
+				for _, vo := range w.Stmts[sid].VerifOps() {
+					rec = append(rec, sched.ParseID(string(vo.Task.UID)))
+				}
+			}
+			// the statements were read AFTER the call: Session.Evict records nothing, so the lists are those before it
+			lin := []int64{int64(len(rec))}
+			lin = append(lin, rec...)
+			lin = append(lin, int64(len(ob.newEv)))
+			for _, e := range ob.newEv {
+				lin = append(lin, e, 0)
+			}
+			law(106, lin, "")
+		}
+		// Pod.Spec.NodeName: Statement.Allocate / Session.Allocate write it before anything can fail
+		// and no rollback (unallocate, undoAllocation, revertPlacement, Discard, refused bind) resets it.
+		// KNOWN FINDING; the sig is attached only when the value left behind is the node of the
+		// failed / discarded Allocate.
+		if (o.Code == 1 || o.Code == 11) && ob.res == 1 {
+			id, nodeArg := o.A[0], o.A[1]
+			if o.Code == 1 {
+				id, nodeArg = o.A[1], o.A[2]
+			}
+			now := sched.NodeRef(w.Tasks[id].Pod.Spec.NodeName)
+			sig := ""
+			if now == nodeArg && specBefore[id] != nodeArg {
+				sig = "C07-pod-spec-nodename-not-rolled-back"
+			}
+			if sig == "" || (podSigned == 0 && len(ops)%8 == 0) {
+				law(110, []int64{specBefore[id], now}, sig)
+			}
+			if sig != "" {
+				podSigned++ // the known finding fails this law by design: one reproduction per history, in one history out of eight, is enough (check keeps a bounded number of known failures)
+			}
+		}
+		if o.Code == 1 && ob.res == 0 {
+			specAtPlacement[o.A[1]] = specBefore[o.A[1]]
+		}
+		if o.Code == 6 {
+			for id, was := range specBefore {
+				now := sched.NodeRef(w.Tasks[id].Pod.Spec.NodeName)
+				sig := ""
+				if now != was && now == sched.NodeRef(lastAllocNode[id]) {
+					sig = "C07-pod-spec-nodename-not-rolled-back"
+				}
+				if sig == "" || (podSigned == 0 && len(ops)%8 == 0) {
+					law(110, []int64{was, now}, sig)
+				}
+				if sig != "" {
+					podSigned++
+				}
+			}
+		}
+		if o.Code == 1 && ob.res == 0 {
+			lastAllocNode[o.A[1]] = sched.NodeName(o.A[2])
 		}
 		if isGang(ops) && i == len(ops)-1 && o.Code == 11 {
 			// directed gang family: order-insensitive law of the dispatch loop
